@@ -572,3 +572,32 @@ def random_inputs(model_bytes, rng, n_samples=1, scale=1.0):
       samples.append(d)
     out[sd.signatureKey.decode()] = samples
   return out
+
+
+def shared_weight_model(rng):
+  """two FULLY_CONNECTED ops reading ONE weight tensor (a constant with several consumers)"""
+  mb = ModelBuilder(rng, name_style=0)
+  gb = GraphBuilder(mb, 0, 'serving_default')
+  n, m_ = rng.choice([3, 4, 6]), rng.choice([2, 3, 4])
+  x = gb.act('serving_default_x', (rng.choice([1, 2]), n))
+  gb.g.inputs.append(x)
+  w = gb.fconst('serving_default/shared/w', [m_, n], kind='normal')
+  outs = []
+  for i in range(2):
+    out = gb.act(f'serving_default/fc{i}/out', (gb.g.tensors[x].shape[0], m_))
+    gb.op(B.FULLY_CONNECTED, [x, w, -1], [out], S.BuiltinOptions.FullyConnectedOptions,
+          gb._mk(S.FullyConnectedOptionsT, fusedActivationFunction=0, keepNumDims=False,  # pylint: disable=protected-access
+                 weightsFormat=0))
+    outs.append(out)
+  gb.g.outputs = np.array(outs, dtype=np.int32)
+  gb.g.inputs = np.array(gb.g.inputs, dtype=np.int32)
+  mb.m.subgraphs.append(gb.g)
+  sd = S.SignatureDefT()
+  sd.signatureKey = b'serving_default'
+  sd.subgraphIndex = 0
+  sd.inputs, sd.outputs = [], []
+  tm = S.TensorMapT(); tm.name = b'x'; tm.tensorIndex = int(x); sd.inputs.append(tm)
+  for i, t in enumerate(outs):
+    tm = S.TensorMapT(); tm.name = f'y{i}'.encode(); tm.tensorIndex = int(t); sd.outputs.append(tm)
+  mb.m.signatureDefs.append(sd)
+  return mb.finish(), {'n_subgraphs': 1, 'ops': [2]}
